@@ -183,6 +183,10 @@ def run(ctx):
         bd = Bounds(prog, f, eff)
         ci = f.params[2]['n']
         reads = [c for c in f.calls(('psf_fread', 'memcpy', 'fread', 'psf_binheader_readf')) if f.s(f.unwrap(f.args(c)[0])).startswith(ci + '->data')]
+        # the caller's capacity is an INPUT of this call: a hook that stores into it replaces the bound by the chunk's own size
+        wr = [a for (lv, a, r) in assigned_lvalues(f) if lv == ci + '->datalen']
+        ctx.ob('GETDATA-MIN', f.name + ':datalen-input', not wr, f.loc(wr[0]) if wr else f.loc(f.body), '%s->datalen is never assigned' % ci if not wr else
+               '%s->datalen (the caller\'s buffer size) is overwritten (`%s`): the bound of the copy below is no longer what the caller allowed' % (ci, f.s(wr[0])[:70]), None)
         if not reads:
             ctx.ob('GETDATA-MIN', f.name + ':read', False, f.loc(f.body), 'no read into %s->data found' % ci)
         for c in reads:
